@@ -141,6 +141,23 @@ Next ==
             /\ LET f == IF Want("C11") THEN Chk("c11.lookup-misses-own-entry", e.own = 1) \cup Chk("c11.lookup-returns-entry-of-another-hash", e.other = <<>>) ELSE {}
                IN f # {} => PrintT("FAIL|" \o ToString(l) \o "|" \o ToString(f))
             /\ UNCHANGED <<ti, vals, qi, qval, nodraws>>
+       [] e.op = "consolett" ->
+            \* the same console session on a driver with a table and on one without: every analysis ends
+            \* with the same depth and score, the move played with the table is one the table-less per-move
+            \* breakdown rates best, and the breakdowns agree
+            /\ LET n == Len(e.off)
+                   Lines(a) == { a.lines[j] : j \in 1..Len(a.lines) }
+                   f == IF ~Want("C11") THEN {}
+                        ELSE Chk("harness.console-session-incomplete", e.trouble = "" /\ Len(e.on) = n)
+                             \cup (IF e.trouble = "" /\ Len(e.on) = n
+                                   THEN Chk("c11.console-root-score", \A i \in 1..n : e.on[i].final = e.off[i].final)
+                                        \cup Chk("c11.console-bestmove-not-best", \A i \in 1..n :
+                                                 \E j \in 1..Len(e.off[i].lines) : /\ e.off[i].lines[j][1] = e.on[i].best
+                                                                                     /\ e.off[i].lines[j][2] = e.off[i].lines[1][2])
+                                        \cup Chk("c11.console-breakdown", \A i \in 1..n : Lines(e.on[i]) = Lines(e.off[i]))
+                                   ELSE {})
+               IN f # {} => PrintT("FAIL|" \o ToString(l) \o "|" \o ToString(f))
+            /\ UNCHANGED <<ti, vals, qi, qval, nodraws>>
        [] e.op = "psearch" ->
             /\ LET f == JudgePonder(e) IN f # {} => PrintT("FAIL|" \o ToString(l) \o "|" \o ToString(f))
             /\ UNCHANGED <<ti, vals, qi, qval, nodraws>>
